@@ -62,6 +62,13 @@ func ruleR15(c *Ctx, prop string) {
 	}
 	L := c.loadPath(mi)
 	c.counts["R15.load_functions"] = len(L)
+	// the raw readers' tables (payload lengths 0..2w+1 walked without a panic) stand in for the buffer-length
+	// obligations inside the functions they walked in full
+	for _, g := range c.libFns {
+		if t, ok := c.rawReaderRole(g); ok && t.goT != types.Bool && g.Signature.Results().Len() == 2 {
+			c.rawReaderTable(g, t)
+		}
+	}
 	if len(L) < 30 {
 		c.undecided("R15", "R15:floor:functions", "", fmt.Sprintf("only %d load-reachable functions (floor 30)", len(L)))
 	}
@@ -417,6 +424,47 @@ func (c *Ctx) indexSafe(x, idx ssa.Value, b *ssa.BasicBlock) (bool, string) {
 			}
 		}
 	}
+	// count-down loop: i = phi(len(y) - 1, i - 1) under i >= 0 (or i > -1), y of the same length as x
+	if phi, ok := idx.(*ssa.Phi); ok && len(phi.Edges) == 2 {
+		var start, step ssa.Value
+		for _, e := range phi.Edges {
+			if bo, ok := e.(*ssa.BinOp); ok && bo.Op == token.SUB && bo.X == ssa.Value(phi) {
+				step = e
+			} else {
+				start = e
+			}
+		}
+		okStep := false
+		if bo, ok := step.(*ssa.BinOp); ok {
+			if k, ok := constInt(bo.Y); ok && k == 1 {
+				okStep = true
+			}
+		}
+		okStart := false
+		if bo, ok := start.(*ssa.BinOp); ok && bo.Op == token.SUB {
+			if k, isK := constInt(bo.Y); isK && k >= 1 {
+				if lc, ok := bo.X.(*ssa.Call); ok {
+					if bi, ok := lc.Common().Value.(*ssa.Builtin); ok && bi.Name() == "len" && lenEquiv(lc.Common().Args[0], x) {
+						okStart = true
+					}
+				}
+			}
+		}
+		okLower := false
+		for _, g := range guardsOf(b) {
+			for _, a := range atomsOf(g) {
+				if a.x != ssa.Value(phi) {
+					continue
+				}
+				if k, ok := constInt(a.y); ok && ((a.op == token.GEQ && k >= 0) || (a.op == token.GTR && k >= -1)) {
+					okLower = true
+				}
+			}
+		}
+		if okStep && okStart && okLower {
+			return true, "count-down loop index from len-1 of a slice of the same length, guarded by >= 0"
+		}
+	}
 	return false, "index " + idx.Name() + " is not a recognised bounded loop index"
 }
 
@@ -696,6 +744,14 @@ func (c *Ctx) dynCallSafe(call *ssa.Call, b *ssa.BasicBlock) (bool, string) {
 	if !c.fnValueNonNil(call.Common().Value, b, 0) {
 		return false, "the function value may be nil"
 	}
+	if ts, ok := c.fnTargets(call.Common().Value, 0); ok && len(ts) > 0 {
+		for _, t := range ts {
+			if !isLibFn(t) {
+				return false, "it may stand for " + fname(t)
+			}
+		}
+		return true, ""
+	}
 	n := 0
 	if node := c.cg.Nodes[call.Parent()]; node != nil {
 		for _, e := range node.Out {
@@ -895,4 +951,135 @@ func (c *Ctx) fnValueNonNil(v ssa.Value, b *ssa.BasicBlock, depth int) bool {
 		return n > 0
 	}
 	return false
+}
+
+// fnTargets: the functions a function value can stand for, read off the program (function and closure values,
+// parameters through every call site of an unexported function, captured variables through their stores, merges);
+// ok=false when some source cannot be named.
+func (c *Ctx) fnTargets(v ssa.Value, depth int) ([]*ssa.Function, bool) {
+	if depth > 5 {
+		return nil, false
+	}
+	switch x := v.(type) {
+	case *ssa.Function:
+		return []*ssa.Function{x}, true
+	case *ssa.MakeClosure:
+		if f, ok := x.Fn.(*ssa.Function); ok {
+			return []*ssa.Function{f}, true
+		}
+	case *ssa.ChangeType:
+		return c.fnTargets(x.X, depth+1)
+	case *ssa.Phi:
+		var out []*ssa.Function
+		for _, e := range x.Edges {
+			if k, isK := e.(*ssa.Const); isK && k.Value == nil {
+				continue // nil-ness is fnValueNonNil's business
+			}
+			ts, ok := c.fnTargets(e, depth+1)
+			if !ok {
+				return nil, false
+			}
+			out = append(out, ts...)
+		}
+		return out, true
+	case *ssa.Parameter:
+		f := x.Parent()
+		if f.Object() != nil && f.Object().Exported() && f.Signature.Recv() == nil {
+			return nil, false
+		}
+		idx := -1
+		for i, p := range f.Params {
+			if p == x {
+				idx = i
+			}
+		}
+		var out []*ssa.Function
+		n := 0
+		for _, g := range c.libFns {
+			for _, bb := range g.Blocks {
+				for _, in := range bb.Instrs {
+					cl, ok := in.(*ssa.Call)
+					if !ok || cl.Common().StaticCallee() != f || idx < 0 || idx >= len(cl.Common().Args) {
+						continue
+					}
+					n++
+					ts, ok := c.fnTargets(cl.Common().Args[idx], depth+1)
+					if !ok {
+						return nil, false
+					}
+					out = append(out, ts...)
+				}
+			}
+		}
+		return out, n > 0
+	case *ssa.UnOp:
+		if x.Op != token.MUL {
+			return nil, false
+		}
+		var cells []ssa.Value
+		switch cell := x.X.(type) {
+		case *ssa.Alloc:
+			cells = append(cells, cell)
+		case *ssa.FreeVar:
+			f := cell.Parent()
+			for i, fv := range f.FreeVars {
+				if fv != cell {
+					continue
+				}
+				for _, g := range c.libFns {
+					for _, bb := range g.Blocks {
+						for _, in := range bb.Instrs {
+							if mc, ok := in.(*ssa.MakeClosure); ok && mc.Fn == ssa.Value(f) && i < len(mc.Bindings) {
+								cells = append(cells, mc.Bindings[i])
+							}
+						}
+					}
+				}
+			}
+		default:
+			return nil, false
+		}
+		var out []*ssa.Function
+		for _, cell := range cells {
+			al, ok := cell.(*ssa.Alloc)
+			if !ok {
+				return nil, false
+			}
+			for _, r := range *al.Referrers() {
+				if st, ok := r.(*ssa.Store); ok && st.Addr == ssa.Value(al) {
+					ts, ok := c.fnTargets(st.Val, depth+1)
+					if !ok {
+						return nil, false
+					}
+					out = append(out, ts...)
+				}
+			}
+		}
+		return out, len(out) > 0
+	}
+	return nil, false
+}
+
+// rawReaderRole: a function []byte -> []T (, error) of package onnx, and the ONNX type with that element type.
+func (c *Ctx) rawReaderRole(g *ssa.Function) (onnxType, bool) {
+	if fnPkgPath(g) != pkgOnnx || g.Parent() != nil || g.Signature.Recv() != nil || len(g.Params) != 1 || g.Origin() != nil || g.TypeParams().Len() > 0 {
+		return onnxType{}, false
+	}
+	if k, ok := basicKindOfSliceElem(g.Params[0].Type()); !ok || k != types.Uint8 {
+		return onnxType{}, false
+	}
+	nr := g.Signature.Results().Len()
+	if nr < 1 || nr > 2 || (nr == 2 && !isErrorType(g.Signature.Results().At(1).Type())) {
+		return onnxType{}, false
+	}
+	ek, ok := basicKindOfSliceElem(g.Signature.Results().At(0).Type())
+	if !ok {
+		return onnxType{}, false
+	}
+	for _, t := range onnxTypes {
+		if t.goT == ek {
+			return t, true
+		}
+	}
+	return onnxType{}, false
 }
